@@ -42,3 +42,9 @@ CHECKS["C13"] = ("property-based testing over a guarded trace of preprocessed ro
 CHECKS["C22"] = ("property-based testing: theory-solver verdicts recorded inside real search (guarded trace) are re-decided by z3/cvc5 on the replayed literal stack",
                  "Arm A only (monitor inside search, all theories incl. arrays and UF+LA): every inconsistency verdict must be for an unsat literal set, every complete consistent verdict (no pending splits, integer-free logics) for a sat one. The direct stateful harness (arm B of the design) is not built. Exploration only.",
                  HOOKED + REF, "DESIGN.md §4 C22 arm A, §5")
+CHECKS["C20"] = ("property-based differential testing (file mode vs pipe mode) with a layout generator and a hook-enforced read schedule",
+                 "Generated valid scripts under adversarial layouts (delimiters inside comments/strings/quoted symbols) and read-size schedules; pipe-mode stdout and exit status must equal file mode byte for byte. Exploration only.",
+                 HOOKED + "file mode as reference", "DESIGN.md §4 C20, §5")
+CHECKS["C23"] = ("metamorphic property-based testing (same input twice under different address-space layouts, fast and sanitizer builds)",
+                 "Generated scripts with all query kinds are run twice per build with ASLR on and different environment size / cwd; outputs must be byte-identical. Exploration only.",
+                 "kernel ASLR; no external oracle", "DESIGN.md §4 C23")
